@@ -18,7 +18,8 @@ def run(tier, seed):
         models=[('MC_LraSem', 'MC_LraSem_quick.cfg', 'MC_LraSem.cfg',
                  'the Fourier-Motzkin oracle agrees with vertex enumeration on every system of <= 2 (quick) / 3 (thorough) constraints over 2 variables', None),
                 ('MC_LraImpl', 'MC_LraImpl_A1.cfg', 'MC_LraImpl_A.cfg',
-                 'implementation-shaped model of lra_theory (tableau, values, bounds with reasons, undo layers, unate and row bound propagation with lemmas, Bland pivoting, conflict explanations): RowsEquivalent, ValuesSatisfyRows, ValuesWithinBounds, NoCycling, BoundsExact, ReasonsValid, PopRestores, LemmasValid / ConflictValid (by Fourier-Motzkin), AssertedFeasible; explored per state without the lemma database', None)],
+                 'implementation-shaped model of lra_theory (tableau, values, bounds with reasons, undo layers, unate and row bound propagation with lemmas, Bland pivoting, conflict explanations): RowsEquivalent, ValuesSatisfyRows, ValuesWithinBounds, NoCycling, BoundsExact, ReasonsValid, PopRestores, LemmasValid / ConflictValid (by Fourier-Motzkin), AssertedFeasible; explored per state without the lemma database', None),
+                ('MC_LraImpl', None, 'MC_LraImpl_A1pairs.cfg', 'the same model with two literals assigned in one batch (the theory sees the first while the second is assigned but not yet propagated)', None)],
         lraimpl=(['LraGen_A.cfg'], ['LraGen_A.cfg', 'LraGen_B.cfg']))
 
 
